@@ -3,6 +3,7 @@ package sessiontracker
 import (
 	"fmt"
 	"strconv"
+	"sync"
 	"time"
 
 	"github.com/elastic/go-libaudit/v2/aucoalesce"
@@ -34,6 +35,17 @@ func NewSessionTracker(eventWriter *auditevent.EventWriter, l *zap.SugaredLogger
 // allowing us to correlate auditd events back to the credential
 // a user used to authenticate.
 type sessionTracker struct {
+	// mu serializes RemoteLogin, AuditdEvent and the cleanup methods.
+	//
+	// Remote user logins, audit events and periodic cleanup are
+	// delivered from different Go routines. Each of these methods
+	// consults both maps below, so the individual map locks are
+	// not enough: without mu a login and the audit session it
+	// belongs to can miss each other (the login gets cached while
+	// the session is created without it) and neither is ever
+	// correlated.
+	mu sync.Mutex
+
 	// sessIDsToUsers contains active auditd sessions which may
 	// or may not have a common.RemoteUserLogin associated with
 	// them. It also acts as an auditd event cache.
@@ -62,6 +74,9 @@ type sessionTracker struct {
 // RemoteLogin validates and checks if there is an auditd session already present for the
 // RemoteLogin passed as parameter. It modifies the user object by setting the remote login information.
 func (o *sessionTracker) RemoteLogin(rul common.RemoteUserLogin) error {
+	o.mu.Lock()
+	defer o.mu.Unlock()
+
 	var debugLogger *zap.SugaredLogger
 	if o.l.Level().Enabled(zap.DebugLevel) {
 		debugLogger = o.l.With("RemoteUserLogin", rul)
@@ -142,6 +157,9 @@ func (o *sessionTracker) RemoteLogin(rul common.RemoteUserLogin) error {
 // It checks if the event session is present in active audit sessions and then it triggers the audit with that session.
 // If the event is not present then it triggers the audit without the session.
 func (o *sessionTracker) AuditdEvent(event *aucoalesce.Event) error {
+	o.mu.Lock()
+	defer o.mu.Unlock()
+
 	// TODO: Handle the "SystemAction" type (where session == "unset").
 	//  ps: "unset" is a string.
 
@@ -294,6 +312,9 @@ func (o *sessionTracker) auditEventWithoutSession(event *aucoalesce.Event, debug
 // DeleteUsersWithoutLoginsBefore it takes a time parameter. It iterates over active audit sessions.
 // If the session is added before the timestamp and the user does not have a remote login, then it deletes that session.
 func (o *sessionTracker) DeleteUsersWithoutLoginsBefore(t time.Time) {
+	o.mu.Lock()
+	defer o.mu.Unlock()
+
 	var debugLogger *zap.SugaredLogger
 	if o.l.Level().Enabled(zap.DebugLevel) {
 		debugLogger = o.l.With(
@@ -323,6 +344,9 @@ func (o *sessionTracker) DeleteUsersWithoutLoginsBefore(t time.Time) {
 // It iterates over remote user logins and checks if a login was before the timestamp,
 // then it deletes that remote user login.
 func (o *sessionTracker) DeleteRemoteUserLoginsBefore(t time.Time) {
+	o.mu.Lock()
+	defer o.mu.Unlock()
+
 	var debugLogger *zap.SugaredLogger
 	if o.l.Level().Enabled(zap.DebugLevel) {
 		debugLogger = o.l.With(
